@@ -353,6 +353,24 @@ def unit_pointwise_inner(field, op_weighted, k=2):
                 config={'field': field, 'op_weighted': op_weighted, 'components': k})
 
 
+def unit_operator_pool_bounded():
+    """BOUNDED stand-in (never counted as proved) for the adjoints outside the deductive units (tensor_ops, pspace_ops, diff_ops, discr_ops, transforms): for one small instance
+    per operator class / option (contracts/oppool.py) and 3 random pairs, <A x, y> == <x, A.adjoint y> in the spaces' own (weighted) inner products and A.adjoint.adjoint acts like A.
+    Operators documented as approximate adjoints (Resampling) are exempt."""
+    def run(ctx):
+        from contracts import oppool
+        for name in oppool.pool():
+            try:
+                bad, note = oppool.check_adjoint(name)
+            except Exception as e:
+                bad, note = 'raised %s: %s' % (type(e).__name__, str(e)[:160]), None
+            if note:
+                continue
+            ctx.bounded('library operator: adjoint identity in the weighted inner products, adjoint of the adjoint', not bad, {'operator': name}, detail=bad)
+    return Unit('operator-pool/adjoint', run, funcs=['odl.operator.tensor_ops:*.adjoint', 'odl.operator.pspace_ops:*.adjoint', 'odl.discr.diff_ops:*.adjoint', 'odl.discr.discr_ops:*.adjoint',
+                'odl.trafos.fourier:*.adjoint', 'odl.trafos.wavelet:*.adjoint'], kind='B', bounded_in='one small instance per operator class / option in contracts/oppool.py, 3 random pairs each')
+
+
 def unit_canary():
     """must-fail: adjoint of s*A without conjugating s (complex field)"""
     def run(ctx):
@@ -389,6 +407,7 @@ def units(tier, seed):
         for wtd in (True, False):
             us.append(unit_pointwise_inner(field, wtd))
     us.append(unit_pointwise_inner('real', True, k=3))
+    us.append(unit_operator_pool_bounded())
     us.append(unit_canary())
     return us
 
@@ -426,6 +445,13 @@ def replay_pointwise_inner(ob):
 
 
 def replay(ob):
+    if ob.get('unit', '').startswith('operator-pool/'):
+        from contracts import oppool
+        try:
+            bad = oppool.check_adjoint((ob.get('model') or {}).get('operator'))[0]
+        except Exception as e:
+            bad = 'raised %s: %s' % (type(e).__name__, e)
+        return {'reproduced': bool(bad), 'detail': bad or 'holds natively', 'input': ob.get('model')}
     if ob.get('unit', '').startswith('pointwise-inner/'):
         try:
             return replay_pointwise_inner(ob)
